@@ -36,6 +36,9 @@ fn gen_scenario(rng: &mut vsim::rng::Rng) -> Scenario {
     let looping = rng.below(4) == 0;
     if looping {
         cfg.max_steps = 1 + rng.below(3) as u32;
+        // what a visit leaves behind must not decide the next one: more needs-branches inside loops
+        cfg.p_needs = *rng.pick(&[200, 400, 600]);
+        cfg.p_branches = *rng.pick(&[600, 800]);
     }
     let mut g = Gen::new(rng, cfg);
     let mut m = g.workflow("m");
